@@ -97,7 +97,7 @@ pub fn run(ctx: &Ctx) -> i32 {
     // C10-specific exclusions live in known_findings.json under property C10 like all others
     let _ = &mut gates;
     let off = gates.off_list();
-    let cases = ctx.tier.pick(40_000, 1_000_000);
+    let cases = ctx.tier.pick(400_000, 5_000_000);
     let out = run_tapes("C10", ctx.seed, ctx.threads, cases, 1200, |tape, stats, counting| {
         let g = Gates::with_off(off.clone());
         check_tape(tape, &g, stats, counting)
